@@ -520,6 +520,13 @@ htp_status_t htp_connp_REQ_BODY_CHUNKED_LENGTH(htp_connp_t *connp) {
                 // End of data.
                 connp->in_state = htp_connp_REQ_HEADERS;
                 connp->in_tx->request_progress = HTP_REQUEST_TRAILER;
+                // Tells the decompressor, if there is one, to output what it still
+                // holds now, so that the last body data does not arrive after the
+                // trailer callbacks
+                if (connp->req_decompressor != NULL) {
+                    htp_status_t rc = htp_tx_req_process_body_data_ex(connp->in_tx, NULL, 0);
+                    if (rc != HTP_OK) return rc;
+                }
             } else {
                 // Invalid chunk length.
                 htp_log(connp, HTP_LOG_MARK, HTP_LOG_ERROR, 0, "Request chunk encoding: Invalid chunk length");
